@@ -17,11 +17,14 @@ pub struct Command {
     program: OsString,
     args: Vec<OsString>,
     dir: Option<PathBuf>,
+    /// `stdout(..)` was configured by the caller (taken as `Stdio::piped()`: std's `Stdio` cannot
+    /// be inspected, and piping is why callers configure it)
+    stdout_configured: bool,
 }
 
 impl Command {
     pub fn new<S: AsRef<OsStr>>(program: S) -> Command {
-        Command { program: program.as_ref().to_owned(), args: vec![], dir: None }
+        Command { program: program.as_ref().to_owned(), args: vec![], dir: None, stdout_configured: false }
     }
     pub fn arg<S: AsRef<OsStr>>(&mut self, arg: S) -> &mut Command {
         self.args.push(arg.as_ref().to_owned());
@@ -48,6 +51,7 @@ impl Command {
         self
     }
     pub fn stdout<T: Into<Stdio>>(&mut self, _cfg: T) -> &mut Command {
+        self.stdout_configured = true;
         self
     }
     pub fn stderr<T: Into<Stdio>>(&mut self, _cfg: T) -> &mut Command {
@@ -65,8 +69,10 @@ impl Command {
 
     pub fn spawn(&mut self) -> io::Result<Child> {
         let dir = self.dir.clone().unwrap_or_else(|| PathBuf::from("."));
-        let pid = simrt::proc::spawn(&self.script(), dir)?;
-        Ok(Child { pid })
+        // `/bin/sh -ce <script>`: the flags are the argument before the script
+        let flags = if self.args.len() >= 2 { self.args[self.args.len() - 2].to_string_lossy().into_owned() } else { String::new() };
+        let pid = simrt::proc::spawn(&self.script(), dir, &flags, self.stdout_configured)?;
+        Ok(Child { pid, stdin: None, stdout: if self.stdout_configured { Some(ChildStdout { pid }) } else { None }, stderr: None })
     }
 
     pub fn status(&mut self) -> impl Future<Output = io::Result<ExitStatus>> {
@@ -75,7 +81,10 @@ impl Command {
     }
 
     pub fn output(&mut self) -> impl Future<Output = io::Result<Output>> {
+        // `output()` drains stdout while it waits: no back-pressure, whatever was configured
+        let configured = std::mem::replace(&mut self.stdout_configured, false);
         let child = self.spawn();
+        self.stdout_configured = configured;
         async move {
             let mut child = child?;
             let status = child.status().await?;
@@ -88,6 +97,35 @@ impl Command {
 #[derive(Debug)]
 pub struct Child {
     pid: usize,
+    pub stdin: Option<ChildStdin>,
+    pub stdout: Option<ChildStdout>,
+    pub stderr: Option<ChildStderr>,
+}
+
+#[derive(Debug)]
+pub struct ChildStdin(());
+#[derive(Debug)]
+pub struct ChildStderr(());
+
+/// Read end of the pipe a script's stdout was connected to.
+#[derive(Debug)]
+pub struct ChildStdout {
+    pid: usize,
+}
+
+impl futures_io::AsyncRead for ChildStdout {
+    fn poll_read(self: Pin<&mut Self>, cx: &mut Context<'_>, buf: &mut [u8]) -> Poll<io::Result<usize>> {
+        if buf.is_empty() {
+            return Poll::Ready(Ok(0));
+        }
+        simrt::proc::pipe_read(self.pid, buf, cx.waker())
+    }
+}
+
+impl futures_io::AsyncRead for ChildStderr {
+    fn poll_read(self: Pin<&mut Self>, _cx: &mut Context<'_>, _buf: &mut [u8]) -> Poll<io::Result<usize>> {
+        Poll::Ready(Ok(0))
+    }
 }
 
 impl Child {
